@@ -89,7 +89,7 @@ Definition chk_prom (c : prom_case) : bool :=
 """
 
 KINDS = ["hb_stopping", "hb_promotion", "hb_pasha", "hb_rush_stopping", "hb_rush_promotion",
-         "sync_hb", "median", "pbt", "fifo", "dehb", "rea", "moasha"]
+         "sync_hb", "median", "pbt", "fifo", "dehb", "rea", "moasha", "morea"]
 
 # rung levels whose promotion quantiles level/next level never put a rung entry exactly on the quantile
 # ((n-1) * q is not an integer for any rung size n reachable here): no decision threshold coincides with a metric value
@@ -146,9 +146,20 @@ def gen_pair_spec(rng, kind):
     elif kind == "dehb":
         spec.update(max_t=rng.choice([9, 16, 27]), grace_period=rng.choice([1, 1, 2]), reduction_factor=rng.choice([2, 3]),
                     brackets=rng.choice([None, 1, 2]), max_trials=rng.randint(8, 60))
-    elif kind == "rea":
-        spec.update(max_t=rng.choice([1, 2, 3]), population_size=rng.choice([2, 3, 5, 8]), sample_size=rng.choice([1, 2, 3]),
-                    max_trials=rng.randint(6, 40))
+    elif kind in ("rea", "morea"):
+        # small population, >= 3x population_size trials: parent selection and aging matter;
+        # mode_to: the optimisation direction is given to the scheduler only (as baselines.REA does) or to both
+        pop = rng.randint(4, 8)
+        spec.update(max_t=rng.choice([1, 1, 2]), population_size=pop, sample_size=rng.randint(2, pop),
+                    max_trials=rng.randint(3 * pop, 5 * pop), mode_to=rng.choice(["scheduler", "both"]))
+        spec["workers"] = rng.randint(1, 4)
+        if kind == "morea":
+            nmet = rng.randint(2, 3)
+            base = [rng.choice(["min", "max"]) for _ in range(nmet)]
+            mask = [rng.random() < 0.6 for _ in range(nmet)]
+            if not any(mask):
+                mask[rng.randrange(nmet)] = True
+            spec.update(nmet=nmet, base_modes=base, mask=mask)
     elif kind == "moasha":
         nmet = rng.randint(1, 3)
         style = rng.choice(["list", "list", "str"])
@@ -177,6 +188,8 @@ def gen_pair_spec(rng, kind):
     else:
         spec.update(max_t=rng.choice([3, 6]), max_trials=rng.randint(3, 10))
     spec["steps"] = rng.randint(30, 400)
+    if kind in ("rea", "morea"):
+        spec["steps"] = 2 * spec["max_trials"] * (spec["max_t"] + 1) + 40
     return spec
 
 
@@ -208,9 +221,22 @@ def build_scheduler(spec, variant):
         from syne_tune.optimizer.schedulers.fifo import FIFOScheduler
         from syne_tune.optimizer.schedulers.searchers.regularized_evolution import RegularizedEvolution
         cs2 = {"x": uniform(0, 1), "k": randint(0, 20), "c": choice(["a", "b", "c"])}
-        rea = RegularizedEvolution(cs2, metric="m", mode=mode, population_size=spec["population_size"],
-                                   sample_size=spec["sample_size"], random_seed=spec["seed"])
+        kw = dict(mode=mode) if spec.get("mode_to", "both") == "both" else {}
+        rea = RegularizedEvolution(cs2, metric="m", population_size=spec["population_size"],
+                                   sample_size=spec["sample_size"], random_seed=spec["seed"], **kw)
         return FIFOScheduler(cs2, searcher=rea, metric="m", mode=mode, random_seed=spec["seed"])
+    if kind == "morea":
+        from syne_tune.optimizer.schedulers.fifo import FIFOScheduler
+        from syne_tune.optimizer.schedulers.multiobjective.multi_objective_regularized_evolution import (
+            MultiObjectiveRegularizedEvolution)
+        cs2 = {"x": uniform(0, 1), "k": randint(0, 20), "c": choice(["a", "b", "c"])}
+        metrics = ["m%d" % i for i in range(spec["nmet"])]
+        modes = moasha_modes(spec, variant)
+        # the searcher's mode argument is mandatory; "scheduler": it gets a placeholder and must follow the scheduler
+        rea = MultiObjectiveRegularizedEvolution(cs2, metric=metrics, mode=modes if spec["mode_to"] == "both" else "min",
+                                                 population_size=spec["population_size"], sample_size=spec["sample_size"],
+                                                 random_seed=spec["seed"])
+        return FIFOScheduler(cs2, searcher=rea, metric=metrics, mode=modes, random_seed=spec["seed"])
     if kind == "moasha":
         from syne_tune.optimizer.schedulers.multiobjective.moasha import MOASHA
         np.random.seed(spec["seed"] % (2 ** 31))  # MOASHA draws configs and brackets from the global numpy generator
@@ -264,7 +290,7 @@ def metric_of(spec, overrides, t, r):
 
 
 def result_of(spec, variant, overrides, tid, r):
-    if spec["sched"] == "moasha":
+    if spec["sched"] in ("moasha", "morea"):
         res = {"epoch": r}
         for i in range(spec["nmet"]):
             v = metric_of(spec, overrides, tid * 10 + i, r)
@@ -414,7 +440,7 @@ def run_pair(ctx, spec, overrides=None):
     n_dec = sum(1 for e in a if e[0] == "result")
     n_nontrivial = sum(1 for e in a if e[0] == "result" and e[3] != "CONTINUE") + \
         sum(1 for e in a if e[0] == "suggest" and e[1] and e[1][0] == "resume")
-    if spec["sched"] == "rea":  # suggestions by mutation of the best sampled parent (population full)
+    if spec["sched"] in ("rea", "morea"):  # suggestions by mutation of the best sampled parent (population full)
         n_nontrivial = max(0, sum(1 for e in a if e[0] == "suggest" and e[1]) - spec["population_size"] - spec["workers"])
     return a, b, k, boundary, n_dec, n_nontrivial
 
@@ -578,6 +604,7 @@ def unit_cases2(ctx, replay):
     if replay is None:
         for _ in range(ctx.n(150, 2000)):
             cases.append(dict(kind="rea", mode=rng.choice(["min", "max"]), population_size=rng.randint(1, 6),
+                              via=rng.choice(["searcher", "scheduler"]),
                               ups=[[i, rng.choice([rng.uniform(-2, 2), float(rng.randint(-3, 3))])] for i in range(rng.randint(0, 12))]))
     elif replay.get("kind") == "rea":
         cases = [replay]
@@ -586,10 +613,18 @@ def unit_cases2(ctx, replay):
     for c in cases:
         pops = []
         for mode, sgn in ((c["mode"], 1.0), (flip(c["mode"]), -1.0)):
-            rea = RegularizedEvolution(cs, metric="m", mode=mode, population_size=c["population_size"], sample_size=1,
-                                       random_seed=0)
-            for t, m in c["ups"]:
-                rea.on_trial_result(str(t), {"x": 0.5, "c": "a"}, {"m": sgn * m}, update=True)
+            if c.get("via", "searcher") == "searcher":
+                rea = RegularizedEvolution(cs, metric="m", mode=mode, population_size=c["population_size"], sample_size=1,
+                                           random_seed=0)
+                for t, m in c["ups"]:
+                    rea.on_trial_result(str(t), {"x": 0.5, "c": "a"}, {"m": sgn * m}, update=True)
+            else:
+                # direction given to the scheduler only (how baselines.REA is built): the searcher must follow it
+                from syne_tune.optimizer.schedulers.fifo import FIFOScheduler
+                rea = RegularizedEvolution(cs, metric="m", population_size=c["population_size"], sample_size=1, random_seed=0)
+                fifo = FIFOScheduler(cs, searcher=rea, metric="m", mode=mode, random_seed=0)
+                for t, m in c["ups"]:
+                    fifo.on_trial_complete(U.mk_trial(t, {"x": 0.5, "c": "a"}), {"m": sgn * m})
             pops.append([float(e.score) for e in rea.population])
         ctx.count(("rea", c), nontrivial=len(c["ups"]) > c["population_size"])
         ctx.h("unit_kind", "regularized_evolution")
@@ -847,7 +882,9 @@ def run(ctx, replay=None):
     ctx.rule = ("cases: (a) pairs of whole runs of a real scheduler (HyperbandScheduler stopping / promotion / pasha / "
                 "rush_stopping / rush_promotion, SynchronousGeometricHyperbandScheduler, "
                 "GeometricDifferentialEvolutionHyperbandScheduler, MedianStoppingRule, PopulationBasedTraining, FIFOScheduler "
-                "with random and RegularizedEvolution searcher, MOASHA with per-metric modes) under a harness-side tuner "
+                "with random, RegularizedEvolution and MultiObjectiveRegularizedEvolution searcher (direction given to the "
+                "scheduler only, or to scheduler and searcher; population 4..8, >= 3x population trials), MOASHA with "
+                "per-metric modes) under a harness-side tuner "
                 "loop: mode min on a random metric table f versus mode max on -f (MOASHA: a subset of the metrics flipped "
                 "and negated), same seeds and script; all suggestions (configs, resumed "
                 "trials, checkpoints) and decisions are compared; non-trivial = the run contains a STOP/PAUSE decision or a "
@@ -857,6 +894,16 @@ def run(ctx, replay=None):
                 "trials, skipped milestones) against model/ModeCores.v, each also paired with its mirror on the real code; "
                 "non-trivial = at least two distinct values and a proper cut / a promotion happened; distinct by content hash")
     rng = ctx.rng
+    # at most two reported violations per (kind, signature): one defect must not crowd out the replays of another
+    # (the check writes at most 8 replay files)
+    report, seen = ctx.violation, {}
+
+    def capped(kind, what, case, signature=None, **kw):
+        key = (kind, repr(sorted((signature or {}).items())), kw.get("broken"))
+        seen[key] = seen.get(key, 0) + 1
+        if seen[key] <= 2:
+            report(kind, what, case, signature=signature, **kw)
+    ctx.violation = capped
     unit_cases(ctx, replay)
     unit_cases2(ctx, replay)
     if replay is None:
@@ -879,7 +926,7 @@ def run(ctx, replay=None):
         n_pairs += 1
         n_boundary += boundary
         ctx.count(("pair", spec), nontrivial=n_nontrivial > 0)
-        ctx.h("pair_sched", spec["sched"])
+        ctx.h("pair_sched", spec["sched"] + (":mode_to_" + spec["mode_to"] if "mode_to" in spec else ""))
         ctx.h("pair_decisions", spec["sched"], n_dec)
         ctx.h("pair_nontrivial_events", spec["sched"], n_nontrivial)
         if a and a[-1][0] == "raised":
